@@ -141,6 +141,24 @@ func init() {
 			w.ex.Thread("S2", func() { w.n.Send(pid, "b") })
 		})
 	}
+	// the Terminate callback itself panics: still exactly one invocation, with the original reason
+	for _, cause := range []string{"fail", "kill", "exit"} {
+		cause := cause
+		want := map[string]string{"fail": "E", "kill": "kill", "exit": "X"}[cause]
+		c05Scenario("terminate-callback-panics-"+cause, c05opt{qb: 1, tb: 2, causes: []string{want}, mustEnd: true}, func(w *World) {
+			pid := w.spawnProbe("R", probeCfg{onMsg: failer, onTerm: func(p *probe, reason error) { panic("boom in Terminate") }}, gen.ProcessOptions{})
+			w.watch("O", pid)
+			switch cause {
+			case "fail":
+				w.ex.Thread("S1", func() { w.n.Send(pid, "fail") })
+			case "kill":
+				w.ex.Thread("K", func() { w.n.Kill(pid) })
+			default:
+				w.ex.Thread("X", func() { w.n.SendExit(pid, errX) })
+			}
+			w.ex.Thread("S2", func() { w.n.Send(pid, "b") })
+		})
+	}
 	c05Scenario("single-kill", c05opt{qb: 1, tb: 2, causes: []string{"kill"}, mustEnd: true}, func(w *World) {
 		pid := target(w, false)
 		w.ex.Thread("K", func() { w.n.Kill(pid) })
